@@ -376,7 +376,18 @@ def recover_guards(ctx, rule):
     ne0 = False
     d = "no distinctness set / threshold term found"
     if setterm is not None and thr is not None:
-        cnts = [t for f in f_i for t in Q.find_all(f[0], lambda x: x.op == "len" and _same_coll(x.args[0], setterm))]
+        # |stored vector| counts the same thing as |set| when the vector is pushed to exactly on the iterations whose
+        # insertion succeeded (INV-PAIRED, exact form, of the PANIC engine)
+        vec = push["argv"][0]
+        paired = False
+        if vec.op == "phi" and setterm.op == "phi":
+            from ..panic import _paired
+            try:
+                paired = bool(_paired(eng, vec, setterm, True))
+            except Exception:
+                paired = False
+        cnts = [t for f in f_i for t in Q.find_all(f[0], lambda x: x.op == "len" and (_same_coll(x.args[0], setterm) or
+                                                                                 (paired and _same_coll(x.args[0], vec))))]
         thr_ok = Q.params(Q.leaves(thr)) == {"self.0"} and not Q.contains(thr, lambda t: t.op == "cast" and t.args[2] in ("u8", "u16"))
         for c in cnts:
             ge = lin.entails(L, L.lin(thr).add(L.lin(c), -1))                                   # thr <= |set|
